@@ -254,21 +254,29 @@ func projVal(got any, d jDef, km kindMap, tb *vtable) jVal {
 		if s == "" {
 			return jVal{IDs: []string{}}
 		}
-		return jVal{IDs: []string{asciiID(s)}}
+		return jVal{IDs: []string{s}}
 	}
 	ss, ok := got.([]string)
 	if !ok {
 		return jVal{R: -1, IDs: []string{}}
 	}
-	out := make([]string, len(ss))
-	for i, x := range ss {
-		out[i] = asciiID(x)
-	}
-	return jVal{IDs: out}
+	return jVal{IDs: append([]string{}, ss...)}
 }
 
-// projVals reads every exposed field of a real resource.
+// projVals reads every exposed field of a real resource; relationship ids are made ASCII tokens
+// (families whose ids are concretised, like the documents, use projValsRaw and map them back themselves).
 func projVals(res jsonapi.Resource, km kindMap, tb *vtable) (defMap, valMap) {
+	defs, vals := projValsRaw(res, km, tb)
+	for f, v := range vals {
+		for i, id := range v.IDs {
+			v.IDs[i] = asciiID(id)
+		}
+		vals[f] = v
+	}
+	return defs, vals
+}
+
+func projValsRaw(res jsonapi.Resource, km kindMap, tb *vtable) (defMap, valMap) {
 	defs := projDefs(res.Attrs(), res.Rels(), km)
 	vals := valMap{}
 	for f, d := range defs {
